@@ -350,6 +350,22 @@ pub fn run(cfg: &Cfg) -> Report {
                 bad.push(format!("individuals with float totals {x} / {y}: partial_cmp = {:?}, the totals give {want:?}", a.partial_cmp(&b)));
             }
         } }
+        // incomparable totals stay incomparable whatever the per-case results look like (no falling back on them)
+        for (ra, rb) in [(vec![1.0, f64::NAN], vec![2.0, f64::NAN]), (vec![3.0, f64::INFINITY, f64::NEG_INFINITY], vec![5.0, 1.0]), (vec![f64::NAN], vec![f64::NAN, 1.0]),
+                         (vec![1.0, f64::NAN], vec![1.0, f64::NAN, 7.0]), (vec![0.0, f64::NAN], vec![9.0])] {
+            let a: TestResults<Score<f64>> = ra.clone().into();
+            let b: TestResults<Score<f64>> = rb.clone().into();
+            let ea: TestResults<Error<f64>> = ra.clone().into();
+            let eb: TestResults<Error<f64>> = rb.clone().into();
+            let (ta, tb) = (a.total_result.0, b.total_result.0);
+            let want = ta.partial_cmp(&tb);
+            let ia = EcIndividual::new(1u8, a.clone());
+            let ib = EcIndividual::new(2u8, b.clone());
+            if a.partial_cmp(&b) != want || b.partial_cmp(&a) != want.map(Ordering::reverse) || (a < b) != (ta < tb) || (a >= b) != (ta >= tb)
+                || ea.partial_cmp(&eb) != tb.partial_cmp(&ta) || ia.partial_cmp(&ib) != want || (ia <= ib) != (ta <= tb) {
+                bad.push(format!("result collections {ra:?} (total {ta}) and {rb:?} (total {tb}): partial_cmp = {:?} / {:?} (errors) / {:?} (individuals), the totals give {want:?}", a.partial_cmp(&b), ea.partial_cmp(&eb), ia.partial_cmp(&ib)));
+            }
+        }
         // the same individual compared with itself *through the same reference* is compared like any two individuals:
         // a NaN total is not comparable to itself (no pointer-equality shortcut)
         for &x in &fl {
